@@ -68,6 +68,18 @@ def table_headers(rnd, method):
             bits += field(rnd.choice([0, 1, 2, 3, 7]), 3)
             bits += [rnd.getrandbits(1) for _ in range(rnd.choice([3, 40, 120, 400]))]
             res.append(bits_to_bytes(bits))
+        # two-code tables {c, c'} (one bit each) for every copy-count code c = 15 .. 30: the command bits then select the code,
+        # so each boundary value of the copy_decode guard (valid 15..20, invalid 21..30) is really used
+        for c in range(15, 31):
+            c2 = c + 1 if c < 30 else c - 1
+            for first in (0, 1):
+                bits = [0] + field(31, 5) + field(1, 3) + field(3, 3)
+                for i in range(31):
+                    bits += field(1 if i in (c, c2) else 0, 3)
+                bits += field(0, 3) * 8
+                sel = (0 if c < c2 else 1) ^ first
+                bits += [sel, 1 - sel] + [rnd.getrandbits(1) for _ in range(rnd.choice([8, 64]))] + [0] * 64
+                res.append(bits_to_bytes(bits))
     elif method == "-pm1-":
         for h in range(32):
             res.append(bytes([h << 3]))            # start header with empty rest: endless zeros
@@ -135,6 +147,9 @@ def deep_state_streams(ctx, rnd):
             for ln in (rnd.choice([84, 23]), 85, 116, 117, 244):
                 g.copy(rnd.choice([2624, g.n - 1 if g.n - 1 < 10816 else 10815, rnd.randrange(2624, min(g.n, 10816))]), ln) if g.n > 2624 else g.copy(0, ln)
                 pm.pm1_lit(g, rnd, cl)
+        # (a copy first: the literal written after the last copy above would make the run 216 long, and a block of 216 is
+        # never followed by a copy in the same call)
+        g.copy(rnd.choice(pm.pm1_dists(g.n, 5)), 5)
         for _ in range(215):
             pm.pm1_lit(g, rnd, cl)
         g.copy(rnd.choice(pm.pm1_dists(g.n, 244)), 244)
